@@ -266,7 +266,6 @@ func runC06(c *Ctx) {
 		}
 	}
 
-
 	// ---------- error discipline (E8)
 	errDisciplineFor(c, "C06")
 
